@@ -262,7 +262,7 @@ impl Outcome {
 // ---- shrinking ----------------------------------------------------------------------------
 
 /// smaller variants of a term (ordered roughly from most to least aggressive)
-pub fn shrink_tm(t: &Tm) -> Vec<Tm> {
+pub fn shrink_tm(t: &Tm, la: bool) -> Vec<Tm> {
     let mut out = Vec::new();
     // replace by a kid
     for k in &t.kids {
@@ -273,13 +273,13 @@ pub fn shrink_tm(t: &Tm) -> Vec<Tm> {
         if k.t.size() > 1 {
             let mut c = t.clone();
             // a leaf of the same language
-            c.kids[i].t = if (t.op as usize) >= op("num") as usize && t.name() != "sym" && !t.name().starts_with('p') { Tm::pay("num", 0) } else { Tm::pay("k", 0) };
+            c.kids[i].t = if la { Tm::pay("num", 0) } else { Tm::pay("k", 0) };
             out.push(c);
         }
     }
     // shrink inside kids
     for (i, k) in t.kids.iter().enumerate() {
-        for s in shrink_tm(&k.t) {
+        for s in shrink_tm(&k.t, la) {
             let mut c = t.clone();
             c.kids[i].t = s;
             out.push(c);
@@ -331,7 +331,8 @@ impl Run {
         // shrink terms
         for i in 0..n {
             for j in 0..self.ops[i].t.len() {
-                for s in shrink_tm(&self.ops[i].t[j]) {
+                let la = ["C03", "C14", "C15", "C08R", "C11R", "C06R", "C13R"].contains(&self.check.as_str());
+                for s in shrink_tm(&self.ops[i].t[j], la) {
                     let mut r = self.clone();
                     r.ops[i].t[j] = s;
                     out.push(r);
